@@ -566,7 +566,13 @@ func check(id, tier string) int {
 				opts.MaxPaths, _ = strconv.Atoi(v)
 			}
 			if b.DeadlineS > 0 {
-				opts.Deadline = time.Now().Add(time.Duration(b.DeadlineS) * time.Second)
+				d := b.DeadlineS
+				if violations > 0 && tier == "quick" && d > 30 {
+					// the verdict of this run is already "violated" (confirmed): the
+					// remaining harnesses get a short budget each
+					d = 30
+				}
+				opts.Deadline = time.Now().Add(time.Duration(d) * time.Second)
 			}
 			// a violation ends the exploration of its harness early (not for the
 			// labels a demonstrator of a recorded finding is expected to produce)
